@@ -446,8 +446,8 @@ func (s *Seen) ReadBody(body io.Reader, sizes []int) {
 			}
 			return
 		}
-		if i > 1000000 {
-			s.ReadErr = "drive: read loop did not terminate"
+		if i > 100000 {
+			s.ReadErr = "drive: read loop did not terminate (100000 reads without EOF or error)"
 			return
 		}
 	}
